@@ -84,8 +84,8 @@ CONTROLS: List[Tuple[str, str, str, str, Callable[[Program], list], str]] = [
     ("R-SIGNMAG", "geobox", "GeoBox",
      "def _vp_ctl_sm(self):\n    rx, ry = self.resolution.xy\n    return max(rx * 2, -ry * 3)\n",
      lambda p: generic3.rule_signmag_locals(p, {"geobox"}), "_vp_ctl_sm#res-magnitude-local"),
-    ("R-RECIP", "math", "",
-     "def _vp_ctl_recip(x, sz):\n    inv = 1.0 / sz\n    return floor(x * inv)\n",
+    ("R-RECIP", "math", "Bin1D",
+     "def _vp_ctl_recip(self, x):\n    self._vp_inv = 1.0 / self.sz\n    return floor(x * self._vp_inv)\n",
      lambda p: generic3.rule_reciprocal(p, {"math"}), "_vp_ctl_recip#recip"),
     ("R-ABSEPS", "geobox", "GeoBox",
      "def _vp_ctl_abseps(self):\n    return self._affine.is_rectilinear\n",
